@@ -190,8 +190,10 @@ Definition step (m : mst) (o : op) : res (mst * option N) :=
             | Ok m1 =>
                 let '(m2, _, k) := push_import m1 SF fp in
                 let x := m_f m2 in
+                (* since the repair of D08: one local function fewer (num_local_functions.saturating_sub(1); N's
+                   subtraction is the saturating one) *)
                 Ok (set_sp m2 SF (mkSpace (updN id (fun _ => mkItem id (Some k) false fp) (s_items x))
-                                          (s_recalc x) (s_num x) (s_added x) (s_nlocal x)), None)
+                                          (s_recalc x) (s_num x) (s_added x) (s_nlocal x - 1)), None)
             end
       end
   | ImportToLocal k fp =>
